@@ -50,6 +50,34 @@ def ob_time_at(shape, G, tag, budget_s=120):
     return symx.explore(run, budget_s=budget_s)
 
 
+def ob_history(shape, G, budget_s=120):
+    """a lookup's answer does not depend on the lookups made before on the same engine: after one arbitrary earlier query
+    (time_at with any beat and tag, bpm_at or hittable), time_at(q, tag) still equals the closed-form oracle"""
+    import z3
+    symx, mods = _setup()
+    E = mods["simfile.timing.engine"]
+    Beat = mods["simfile.timing"].Beat
+
+    def run():
+        V = tc.sym_timing(shape, G)
+        k0 = symx.fresh_int("k0", -G, 3 * G); t0 = symx.fresh_int("tag0", 0, 6)
+        kq = symx.fresh_int("kq", -G, 3 * G); tg = symx.fresh_int("tag", 0, 6)
+        eng = _engine(mods, tc.build_td(mods, V))
+        prev = symx.choose("prev", 3)
+        if prev == 0:
+            eng.time_at(Beat(symx.SymInt(k0), 48), symx.SymInt(t0))
+        elif prev == 1:
+            eng.bpm_at(Beat(symx.SymInt(k0), 48))
+        else:
+            eng.hittable(Beat(symx.SymInt(k0), 48))
+        got = eng.time_at(Beat(symx.SymInt(kq), 48), symx.SymInt(tg))
+        exp = tc.rterm(tc.oracle_time(V, kq, tg))
+        if symx.poly_identity(got._v, exp):
+            return True, ("history", shape, "identical polynomials")
+        return symx.zr(got._v) == exp, ("history", shape)
+    return symx.explore(run, budget_s=budget_s)
+
+
 def ob_monotone(shape, G, budget_s=120):
     """(q1,tag1) <= (q2,tag2) lexicographically  =>  time_at(q1,tag1) <= time_at(q2,tag2)"""
     import z3
@@ -142,6 +170,9 @@ def obligations(tier):
         for s in tc.shapes(3):
             if s[0] >= 1:
                 obs.append(dict(name=f"bpm_at{s}/G{G}", func="ob_bpm_at", args=(s, G), budget_s=b, bounds=f"shape {s}"))
+        for s in [(0, 1, 0, 0), (0, 0, 1, 0), (0, 1, 0, 1), (0, 1, 1, 0)]:
+            obs.append(dict(name=f"history{s}/G6", func="ob_history", args=(s, 6), budget_s=b,
+                            bounds=f"shape {s}, ticks 0..6: one arbitrary earlier query (time_at any beat/tag, bpm_at, hittable) on the same engine, then time_at(q, tag) against the oracle"))
         # three warps (nested / overlapping / touching in every arrangement) need a third of a kind
         for s, g in (((0, 0, 0, 3), 8), ((0, 1, 0, 3), 4)):
             obs.append(dict(name=f"time_at{s}/G{g}/alltags", func="ob_time_at", args=(s, g, None), budget_s=b, bounds=f"shape {s}: three warps, ticks 0..{g}"))
@@ -161,6 +192,8 @@ def obligations(tier):
         for s in tc.shapes(4):
             if s[0] >= 1:
                 obs.append(dict(name=f"bpm_at{s}/G{G}", func="ob_bpm_at", args=(s, G), budget_s=b, bounds=f"shape {s}"))
+        for s in tc.shapes(2):
+            obs.append(dict(name=f"history{s}/G12", func="ob_history", args=(s, 12), budget_s=b, bounds=f"shape {s}, ticks 0..12: one arbitrary earlier query on the same engine"))
         for s, g in (((0, 0, 0, 3), 24), ((0, 1, 0, 3), 12), ((1, 0, 0, 3), 12), ((0, 0, 1, 3), 12)):
             obs.append(dict(name=f"time_at{s}/G{g}/alltags", func="ob_time_at", args=(s, g, None), budget_s=b, bounds=f"shape {s}: three warps, ticks 0..{g}"))
         obs.append(dict(name="monotone(0, 0, 0, 3)/G12", func="ob_monotone", args=((0, 0, 0, 3), 12), budget_s=b, bounds="three warps"))
@@ -192,6 +225,18 @@ def replay(data):
         got = float(TimingEngine(td).time_at(q, EventTag(tag)))
         exp = tc.exact_time(c, Fraction(q), tag)
         return abs(got - float(exp)) > TOL, f"time_at({q!r},{tc.TAGS[tag]}) = {got!r}, exact timeline = {float(exp)!r}; timing={c}"
+    if func == "ob_history":
+        e = TimingEngine(td)
+        q0 = Beat(int(g("k0")), 48); prev = int(g("prev"))
+        if prev == 0:
+            e.time_at(q0, EventTag(int(g("tag0", "5"))))
+        elif prev == 1:
+            e.bpm_at(q0)
+        else:
+            e.hittable(q0)
+        got = float(e.time_at(q, EventTag(tag)))
+        exp = tc.exact_time(c, Fraction(q), tag)
+        return abs(got - float(exp)) > TOL, f"after an earlier query ({['time_at', 'bpm_at', 'hittable'][prev]} at {q0!r}) time_at({q!r},{tc.TAGS[tag]}) = {got!r}, exact timeline = {float(exp)!r}; timing={c}"
     if func == "ob_bpm_at":
         got = Fraction(TimingEngine(td).bpm_at(q)); exp = tc.exact_bpm(c, Fraction(q))
         return got != exp, f"bpm_at({q!r}) = {got}, expected {exp}; timing={c}"
